@@ -142,6 +142,35 @@ func (c *Ctx) rootOf(v ssa.Value, d int) []rootInfo {
 			}
 			return []rootInfo{{kind: "local", v: a}}
 		}
+		// a reference (map, slice, pointer) read out of a local struct: the struct is a
+		// copy, what the reference points at is whatever the copy was made from
+		if fa, ok := x.X.(*ssa.FieldAddr); ok {
+			if a, ok := fa.X.(*ssa.Alloc); ok && a.Referrers() != nil {
+				switch x.Type().Underlying().(type) {
+				case *types.Map, *types.Slice, *types.Pointer:
+					var out []rootInfo
+					for _, r := range *a.Referrers() {
+						switch y := r.(type) {
+						case *ssa.Store:
+							if y.Addr == ssa.Value(a) {
+								out = append(out, c.rootOf(y.Val, d+1)...)
+							}
+						case *ssa.FieldAddr:
+							if y.Field == fa.Field && y.Referrers() != nil {
+								for _, rr := range *y.Referrers() {
+									if st, ok := rr.(*ssa.Store); ok && st.Addr == ssa.Value(y) {
+										out = append(out, c.rootOf(st.Val, d+1)...)
+									}
+								}
+							}
+						}
+					}
+					if len(out) > 0 {
+						return out
+					}
+				}
+			}
+		}
 		return c.rootOf(x.X, d+1)
 	case *ssa.Phi:
 		var out []rootInfo
@@ -292,6 +321,17 @@ func C20(c *Ctx) {
 					addr, what = x.Addr, "store"
 				case *ssa.MapUpdate:
 					addr, what = x.Map, "map update"
+				case *ssa.Call:
+					// the map types of the standard library are written through their methods
+					switch cn := Callee(x); cn {
+					case "(net/url.Values).Set", "(net/url.Values).Add", "(net/url.Values).Del", "(net/http.Header).Set", "(net/http.Header).Add", "(net/http.Header).Del":
+						if len(x.Call.Args) == 0 {
+							continue
+						}
+						addr, what = x.Call.Args[0], "map write "+cn+" on"
+					default:
+						continue
+					}
 				default:
 					continue
 				}
